@@ -38,20 +38,21 @@ Proof. exact rbg_reports_primary_services. Qed.
 Print Assumptions C03_read_by_group_type_reports_exactly_primary_services.
 
 (* ---- (2) Discover Primary Service by Service UUID: the response to  06 lo hi 00 28 value  is determined
-   by W: Attribute Not Found if W is empty, else 07 followed by (first handle, last handle) of every service
-   of W. (The size is computed in 8 bits - collect_find_by_type_groups::size() - hence the hypothesis
-   4 * |W| < 256; service uuids are unique in a wf configuration, so |W| <= 1 in fact; that step is not
-   formalised.) *)
+   by W = fbtv_walk ..: Attribute Not Found (01 06 lo 0a) if W is empty; else W is ONE service (service uuids
+   are unique in a wf configuration) and the response is 07 first last *)
 Theorem C03_find_by_type_value_response :
   forall c st cid pdu lo hi value b out_size r,
-    wf c -> no_includes c ->
+    wf c -> no_includes c -> forallb byte_ok value = true ->
     rd pdu 0 = Some 6 -> (len pdu = 9 \/ len pdu = 23) ->
     rd16 pdu 1 = Some lo -> rd16 pdu 3 = Some hi -> rd16 pdu 5 = Some uuid_primary_service ->
     slice pdu 7 (len pdu) = Some value ->
     1 <= lo -> lo <= hi -> 23 <= out_size -> out_size <= len b ->
     handle_find_by_type_value c st cid pdu b out_size = Some r ->
-    fbtv_response (fbtv_walk (groups c) lo hi value (out_size - 1)) lo out_size r.
-Proof. exact find_by_type_value_spec. Qed.
+    match fbtv_walk (groups c) lo hi value (out_size - 1) with
+    | [] => snd r = 5 /\ seg 0 5 (fst r) = 1 :: 6 :: le16 lo ++ [10]
+    | g :: W => W = [] /\ snd r = 5 /\ 5 <= len (fst r) /\ seg 0 5 (fst r) = 7 :: genc4 g
+    end.
+Proof. exact find_by_type_value_spec'. Qed.
 Print Assumptions C03_find_by_type_value_response.
 
 Theorem C03_find_by_type_value_reports_exactly_primary_services :
